@@ -149,6 +149,7 @@ package pos
 //@   modifies nsort
 //@   ensures  fresh(result) && valid(result)
 //@   ensures  forall(id idx.ValidatorID, has(result.values, id) == (has(values, id) && values[id] != 0)) && forall(id idx.ValidatorID, has(result.values, id) ==> result.values[id] == values[id])
+//@   ensures  [ownmap] result.values != nil && result.values != values && fresh(result.values)
 //@   loop 1 modifies valuesCopy[*]
 //@   loop 1 invariant valuesCopy != nil && len(valuesCopy) <= _k && _k <= len(values)
 //@   loop 1 invariant forall(id idx.ValidatorID, has(valuesCopy, id) == (_visited[id] && has(values, id) && values[id] != 0)) && forall(id idx.ValidatorID, has(valuesCopy, id) ==> valuesCopy[id] == values[id])
@@ -205,3 +206,19 @@ package pos
 //@   loop 1 invariant [same] arr == _range
 //@   loop 1 invariant [only] forall(id idx.ValidatorID, has(builder, id) ==> exists(j, 0, _k, _range[j].ID == id))
 //@   loop 1 invariant [pairs] distinctIDs(_range) && nonzeroW(_range) ==> forall(j, 0, _k, has(builder, _range[j].ID) && builder[_range[j].ID] == _range[j].Weight)
+//@
+//@ // Copy / Builder: an independent set (own map and caches) with the same pairs; changing the builder returned by
+//@ // Builder() never changes the set it was taken from
+//@ func (*Validators).Copy
+//@   maypanic
+//@   requires valid(vv) && len(vv.values) <= MaxW
+//@   modifies nsort
+//@   ensures  fresh(result) && valid(result) && result != vv
+//@   ensures  [ownmap] result.values != vv.values && fresh(result.values)
+//@   ensures  [same] forall(id idx.ValidatorID, has(result.values, id) == (has(vv.values, id) && vv.values[id] != 0)) && forall(id idx.ValidatorID, has(result.values, id) ==> result.values[id] == vv.values[id])
+//@ func (*Validators).Builder
+//@   maypanic
+//@   requires valid(vv) && len(vv.values) <= MaxW
+//@   modifies nsort
+//@   ensures  [ownmap] result != nil && result != vv.values && fresh(result)
+//@   ensures  [same] forall(id idx.ValidatorID, has(result, id) == (has(vv.values, id) && vv.values[id] != 0)) && forall(id idx.ValidatorID, has(result, id) ==> result[id] == vv.values[id])
